@@ -540,7 +540,7 @@ func TestVerifRace_Stress(t *testing.T) {
 	ctl := hookctl.Install(vkit.Seed())
 	defer ctl.Uninstall()
 	ctl.SetStress(true)
-	n := vkit.N(40, 1200)
+	n := vkit.N(120, 2500)
 	r.ParallelCases(n, 3, func(i int) { runHistory(r, ctl, i) })
 	for _, v := range ctl.Violations() {
 		key := "monitor/lock-order"
